@@ -242,3 +242,9 @@ _amend('C06', "Which concrete arrays scikit-learn's check_array rejects, feature
 _amend('C12', "the main loop stops only on the documented criteria;", "the main loop stops only on the documented criteria and an exhausted run stores n_iter_ = max_iter; no library call overwrites the prior it is then started from (overwrite_a=True on a live value);")
 _amend('C14', "no hyper-parameter is reassigned", "no array is updated through a ravel() / reshape(-1) alias without write-back (lost for Fortran-ordered init); no hyper-parameter is reassigned")
 _amend('C16', "Decides", "Decides (the validation pairs are validated with the same dtype option as predict / decision_function validate theirs, so the cut-off is chosen among the distances predict compares it with)", )
+
+# DESIGN.md 10.14
+_amend('C01', "and that pair_score is exactly its negation;", "and that pair_score is exactly its negation; the distance views write into no array they are given (FRESH rule, so evaluating the same pair twice gives the same value);")
+_amend('C03', "and n_features_in_ is the last axis of the validated array of the last fit.", "and n_features_in_ is the last axis of the validated array of the last fit; class members are never selected by comparing the original labels with the class POSITION inside a loop over np.unique's values (right only for labels 0..C-1); no axis-less squeeze is applied to an array that carries the sample / constraint axis of the training data (a single sample or constraint would lose its axis).")
+_amend('C05', "ArrayIndexer is X[indices];", "ArrayIndexer is X[indices]; check_input interpreted on float data given formed and on integer indicators with a float-valued preprocessor returns the points without a further dtype conversion (float32 points reached through indicators keep their precision);")
+_amend('C10', "np.fill_diagonal(dist, inf) precedes the soft-max on every path;", "np.fill_diagonal(dist, inf) precedes the soft-max on every path; the reference (furthest target) neighbours handed to LMNN's impostor search depend on the current transformation, not only on the stored neighbour lists;")
